@@ -25,6 +25,7 @@ RULE = (
     " Also: common grids rotated by exact quarter turns and arbitrary angles; 'stack' cases (5-8 full-frame inputs owning exclusive fin"
     'e stripes, 3-4 workers, long updates); a third of the parallel runs with statement-boundary delays on a 300x dilated lock clock; t'
     'he worker receiving one input SIGKILLed.'
+    ' Round 8: a quarter of the API runs use the LXY naming scheme; any left-over lock-like file counts.'
 )
 ASSUMPTIONS = ["overlapping inputs agree by construction", "study tiling itself is decided by C08"]
 FIELDS = ["TileLevels", "CenterX", "CenterY", "BaseDegreesPerTile", "Rotation", "OffsetX", "OffsetY", "Projection", "BottomsUp", "WidthFactor", "FileType", "Url"]
